@@ -123,6 +123,11 @@ fn main() {
                     }
                     };
                 }
+                // every third grid point sets another strategy first (a shared preset refined per
+                // call site, a default overridden conditionally): the last setter wins
+                if code % 3 == 1 {
+                    b = if matches!(s, Strat::Value) { b.exception(|e: InnerErr| InnerErr { id: e.id + 66_000, kind: 8 }) } else { b.value(Resp { serial: 666_000, req: 0, key: 0 }) };
+                }
                 b = match s {
                     Strat::Value => b.value(Resp { serial: 777_000, req: 0, key: 0 }),
                     Strat::ValueFn => {
